@@ -31,9 +31,9 @@ from vf.runner import Violation
 # (A) tolerances: norm-wise relative error per leaf, max|a-b| / (1 + max|a|,|b|).  jit, vmap and eager evaluations differ
 # by fusion / re-association only; quantities downstream of the iterative solver amplify those rounding differences
 # through the line search.  Calibrated on the unchanged tree (quick seeds 1-3 + thorough): worst smooth 3.7e-15, worst
-# solver-dependent 1.1e-9 -> fixed at ~100x.
+# solver-dependent 3.1e-8 (solver tolerance 1e-10, batched vs unbatched program) -> fixed at ~100x.
 TOL_A = 1e-12
-TOL_A_SOLVER = 1e-7
+TOL_A_SOLVER = 3e-6
 SOLVER_LEAVES = ('qacc', 'qfrc_constraint', 'efc_force', 'qacc_warmstart', 'qvel', 'qpos', 'sensordata', 'solver_niter',
                  'cacc', 'cfrc_int', 'cfrc_ext', 'act', 'time', 'qfrc_inverse', 'xpos', 'xquat', 'xmat', 'xipos', 'ximat',
                  'xanchor', 'xaxis', 'geom_xpos', 'geom_xmat', 'site_xpos', 'site_xmat', 'cam_xpos', 'cam_xmat',
